@@ -40,3 +40,13 @@ Definition model_op2 (m : mutator) : option op2 :=
 
 (* every mutator of the alphabet is modelled by [step2] *)
 Definition inv2_step_full_statement : Prop := ∀ m, m ∈ all_mutators → is_Some (model_op2 m).
+
+(* every property statement of C04 and C05 about one state of the three-layer model, for other streams
+   to cite: uniqueness of all keys, lookups by name, containment links in both directions and
+   exclusive, interface numbering, exact references, and the same for signals in messages and
+   multiplexers at any depth *)
+Definition ModelInvariants (s : state2) : Prop :=
+  let b := base (l3 s) in
+  KeysUnique b ∧ LookupByNameSpec b ∧ LinksSymmetric b ∧ ContainersExclusive b ∧ NodeInterfacesContiguous b ∧
+  ReferencesExact (l3 s) ∧
+  SignalNamesUnique s ∧ GetSignalByNameSpec s ∧ SignalParentLinks s ∧ SignalExclusive s.
